@@ -29,22 +29,44 @@ def lru_functions():
     return [v[0] for _, v in sorted(discover_lru().items())]
 
 
+def _is_plain_lru(f):
+    return type(f).__name__ == "_lru_cache_wrapper"
+
+
 def rewrap_lru(maxsize):
-    """Re-wrap every unyt lru memo with the real functools.lru_cache at
-    another capacity and rebind it everywhere the old wrapper was bound
-    (module globals and unyt_array._ufunc_registry)."""
+    """Give every unyt lru memo another capacity, using the real
+    functools.lru_cache.  A plain lru wrapper is re-created around its
+    __wrapped__ function and rebound everywhere the old one was bound
+    (module globals and unyt_array._ufunc_registry).  A hand-written
+    wrapper that keeps an lru wrapper in a closure cell (the registry-aware
+    rule cache) keeps its identity: the cell is re-pointed at a new lru
+    wrapper of the requested capacity around the same inner function."""
     import unyt.array as ua
 
     n = 0
     for name, (old, sites) in sorted(discover_lru().items()):
-        new = functools.lru_cache(maxsize=maxsize, typed=False)(old.__wrapped__)
-        for ns, k in sites:
-            ns[k] = new
-        reg = ua.unyt_array._ufunc_registry
-        for uf, rule in list(reg.items()):
-            if rule is old:
-                reg[uf] = new
-        n += 1
+        if _is_plain_lru(old):
+            new = functools.lru_cache(maxsize=maxsize, typed=False)(old.__wrapped__)
+            for ns, k in sites:
+                ns[k] = new
+            reg = ua.unyt_array._ufunc_registry
+            for uf, rule in list(reg.items()):
+                if rule is old:
+                    reg[uf] = new
+            n += 1
+            continue
+        for cell in getattr(old, "__closure__", None) or ():
+            try:
+                inner = cell.cell_contents
+            except ValueError:
+                continue
+            if _is_plain_lru(inner):
+                new = functools.lru_cache(maxsize=maxsize, typed=False)(inner.__wrapped__)
+                cell.cell_contents = new
+                old.cache_info = new.cache_info
+                old.cache_clear = new.cache_clear
+                n += 1
+                break
     return n
 
 
